@@ -34,7 +34,11 @@ class Setup:
                 c = R.filename_to_candidate("http://x/" + f["fn"], f["fn"])
             self.cands.append(c)
         self.live = [(i, c) for i, c in enumerate(self.cands) if c is not None]
-        self.has_eq = is_pinned_requirement(self.req)
+        # "the requirement pins it exactly": an == / === clause that is not a wildcard - computed here, from the
+        # property's wording, not by the code under test (a seeded change to is_pinned_requirement went unseen while
+        # the harness asked the code)
+        self.has_eq = any(sp.operator in ("==", "===") and not sp.version.endswith(".*") for sp in self.req.specifier)
+        self.has_eq_code = is_pinned_requirement(self.req)
         self.req_has_pre = has_prerelease(self.req)
         self.norm = normalize_project_name
         self.unreadable = {i for i, f in enumerate(case["files"]) if f.get("unreadable")}
